@@ -84,6 +84,7 @@ const (
 	errFmtDiffConstraintTypes = "a dependency package has different types of parent constraints (%v)"
 	errFmtDiffDigests         = "a dependency package has different digests in parent constraints (%v)"
 	errCannotUpdateStatus     = "cannot update status"
+	errFmtNameTaken           = "existing package %s has source %q, not %s"
 )
 
 // ReconcilerOption is used to configure the Reconciler.
@@ -372,7 +373,15 @@ func (r *Reconciler) Reconcile(ctx context.Context, req reconcile.Request) (reco
 
 		// NOTE(hasheddan): consider making the lock the controller of packages
 		// it creates.
-		if err := r.client.Create(ctx, pack); err != nil && !kerrors.IsAlreadyExists(err) {
+		err = r.client.Create(ctx, pack)
+		if kerrors.IsAlreadyExists(err) {
+			// A package with this name exists already. That is fine if it is
+			// a package of this dependency's repository that has not added
+			// itself to the lock yet. A package of another repository that
+			// happens to have the same name does not install the dependency.
+			err = r.checkExistingPackage(ctx, pack, ref)
+		}
+		if err != nil {
 			log.Debug(errCreateDependency, "error", err)
 			lock.SetConditions(v1beta1.ResolutionFailed(errors.Wrap(err, errCreateDependency)))
 			_ = r.client.Status().Update(ctx, lock)
@@ -477,6 +486,22 @@ func (r *Reconciler) findDependencyVersionToInstall(ctx context.Context, dep *v1
 	}
 
 	return addVer, nil
+}
+
+// checkExistingPackage returns an error unless the existing package with the
+// name of the supplied one is a package of the supplied reference's repository.
+func (r *Reconciler) checkExistingPackage(ctx context.Context, pack *unstructured.Unstructured, ref name.Reference) error {
+	existing := &unstructured.Unstructured{}
+	existing.SetGroupVersionKind(pack.GroupVersionKind())
+	if err := r.client.Get(ctx, client.ObjectKeyFromObject(pack), existing); err != nil {
+		return errors.Wrap(err, errGetDependency)
+	}
+	source, _ := fieldpath.Pave(existing.Object).GetString("spec.package")
+	eref, err := name.ParseReference(source, name.WithDefaultRegistry(r.registry))
+	if err != nil || eref.Context().Name() != ref.Context().Name() {
+		return errors.Errorf(errFmtNameTaken, existing.GetName(), source, ref.Context().Name())
+	}
+	return nil
 }
 
 // findDependencyVersionToUpdate finds a valid version to update the dependency considering the parent constraints.
